@@ -84,7 +84,11 @@ def run(ctx):
     for i in range(250 if quick else 8000):
         cases.append(case('e%d' % i, 'determ-eval', g.store(), g.request(), g.expr(r.choice([2, 3, 4]), r.choice([None, 'bool', 'set', 'rec']))))
     for i in range(150 if quick else 5000):
-        pols = [g.policy('p%d' % k, depth=r.choice([1, 2, 3])) for k in range(r.randrange(1, 7))]
+        # ids of every flavour in one set: the loader's policy<n> (numeric and string order disagree from policy10 on), hand-made names that fall
+        # lexically between them, ids that need escapes: the order of the encoded set is one total order, the same on every call
+        idpool = ['policy%d' % k for k in (0, 1, 2, 5, 9, 10, 11, 20, 100)] + ['policy1_admin', 'policy5x', 'policy', 'policy01', 'a', 'B', '', 'é', 'p q', 'p0', 'p1', 'p2']
+        ids = r.sample(idpool, r.randrange(1, 8))
+        pols = [g.policy(pid, depth=r.choice([1, 2, 3])) for pid in ids]
         cases.append(case('a%d' % i, 'determ-authz', g.store(), g.request(), ['policies'] + pols))
     for i in range(250 if quick else 8000):
         pol = g.policy('p', depth=r.choice([1, 2, 3]))
